@@ -47,4 +47,12 @@ pub fn run(run: &mut Run) {
         map_case([12, 2, 6, 5, 5, 3, 1, 1, 1], max_ops),
         |c, obs| run_case(c, T_C02, obs),
     );
+    let n = run.cases(6_000, 200_000);
+    run.sub(
+        "schedule_enumeration",
+        "fault enumeration inside the exploration: for a generated history and one chosen allocating call in it, the history is run five times, once under each allocator failure schedule of that call (none, fail the 1st, 2nd, 3rd request, fail all); same oracles as error_states",
+        n,
+        (map_case([12, 2, 6, 4, 4, 2, 1, 1, 1], 20), proptest::prelude::any::<u16>()),
+        |c, obs| run_case_all_schedules(&c.0, c.1, T_C02, obs),
+    );
 }
